@@ -54,6 +54,30 @@ def mutations(spec: dict) -> t.Iterator[t.Tuple[str, str, dict]]:
             sp = json.loads(json.dumps(spec))
             sp['nodes'][n]['defect'] = d
             yield n, d, sp
+    # the defect on ONE reference of a shared node: a defective twin declaration with the same node id (an instance of the
+    # class, or a redeclaration under the same name) referenced from one consumer while the other consumers name the valid class
+    for n in spec['nodes']:
+        users = [(m, i) for m, nd in spec['nodes'].items() for i, p in enumerate(nd['params']) if p[1] == 'in' and p[2] == n]
+        if len(users) < 2:
+            continue
+        for (m, i) in users:
+            for d in ('not_class', 'no_base', 'unannotated', 'generic_unbound'):
+                sp = json.loads(json.dumps(spec))
+                twin = f'{n}__twin'
+                tw = json.loads(json.dumps(spec['nodes'][n]))
+                if d == 'not_class':
+                    tw = {'params': [], 'instance_of': n}
+                else:
+                    tw['defect'] = d
+                    tw['name_override'] = n
+                nodes = {}
+                for k, v in sp['nodes'].items():
+                    nodes[k] = v
+                    if k == n:
+                        nodes[twin] = tw
+                nodes[m]['params'][i][2] = twin
+                sp['nodes'] = nodes
+                yield f'{n} (reference from {m})', d, sp
     for _, arg in S.rec_marks(spec):
         sp = json.loads(json.dumps(spec))
         sp['nodes'][arg['dest']]['defect'] = 'not_recurrent'
@@ -76,7 +100,7 @@ def work(arg: tuple) -> dict:
     codegen.unload(spec)
     for n, d, sp in mutations(spec):
         out['builds'] += 1
-        pos = positions(spec, n)
+        pos = positions(spec, n) if n in spec['nodes'] else ['one-reference-of-shared-node']
         for p in pos:
             k = f'{d}@{p}'
             out['positions'][k] = out['positions'].get(k, 0) + 1
